@@ -185,6 +185,33 @@ def make_pattern(rng, family):
         order = list(range(len(P)))
         rng.shuffle(order)
         return [els[i] for i in order], P[order], info
+    if family == "bigring":
+        # substituted ring, 10-18 atoms, planar: many atoms so that a single displaced atom hides in an average
+        r = 1.39
+        ring = [[r * math.cos(k * math.pi / 3), r * math.sin(k * math.pi / 3), 0] for k in range(6)]
+        els = ["C"] * 6
+        P = list(ring)
+        for k in range(6):
+            if len(P) >= 18:
+                break
+            if rng.random() < 0.85:
+                rr = rng.uniform(2.3, 2.6)
+                P.append([rr * math.cos(k * math.pi / 3), rr * math.sin(k * math.pi / 3), 0])
+                els.append(rng.choice(["H", "H", "C", "N", "O", "F"]))
+                if els[-1] in ("C", "N") and rng.random() < 0.6:
+                    a = k * math.pi / 3 + rng.uniform(-0.5, 0.5)
+                    P.append([3.6 * math.cos(a), 3.6 * math.sin(a), 0])
+                    els.append(rng.choice(["H", "O", "O"]))
+        while len(P) < 10:
+            a = rng.uniform(0, 2 * math.pi)
+            q = [rng.uniform(3.2, 4.2) * math.cos(a), rng.uniform(3.2, 4.2) * math.sin(a), 0]
+            if _spread_ok(np.array(P + [q])):
+                P.append(q)
+                els.append("H")
+        P = np.array(P, float)
+        order = list(range(len(P)))
+        rng.shuffle(order)
+        return [els[i] for i in order], P[order], info
     if family == "chiral":
         # stereocentre with four different substituents (+ optional tail): its mirror image is not superimposable
         s = 1.0
@@ -204,7 +231,7 @@ def make_pattern(rng, family):
     raise ValueError(family)
 
 
-PATTERN_FAMILIES = ["single", "pair", "collinear", "planar", "asymmetric", "asymmetric", "c2", "c3", "c6", "td", "chiral", "chiral"]
+PATTERN_FAMILIES = ["single", "pair", "collinear", "planar", "planar", "asymmetric", "asymmetric", "c2", "c3", "c6", "td", "chiral", "chiral", "bigring", "bigring"]
 
 
 def effective_hints(P, hints):
@@ -451,3 +478,45 @@ def symmetry_maps(els, P, tol=1e-6):
                 rec(perm + [c])
     rec([])
     return out or [tuple(range(n))]
+
+
+def plane_normal(P, tol):
+    """Unit normal of the best plane through P if all atoms lie within tol of it (also for collinear: any normal), else None."""
+    P = np.asarray(P, float)
+    if len(P) < 3:
+        return None
+    c = P - P.mean(axis=0)
+    U, S, Vt = np.linalg.svd(c)
+    nrm = Vt[-1]
+    if np.abs(c @ nrm).max() <= tol:
+        return nrm / np.linalg.norm(nrm)
+    return None
+
+
+def minimax_fit(P, X, starts=()):
+    """Numerically minimise the largest per-atom distance over proper rigid motions.  Returns the best value FOUND (an upper
+    bound on the true min-max; started from the least-squares fit and from every rotation in `starts`)."""
+    from scipy.optimize import minimize
+    from scipy.spatial.transform import Rotation
+    P = np.asarray(P, float)
+    X = np.asarray(X, float)
+    if len(P) == 1:
+        return 0.0
+    R0, t0, dev0 = kabsch(P, X)
+    best = float(dev0.max())
+    cands = [R0] + [np.asarray(r, float) for r in starts]
+    pc = P.mean(axis=0)
+
+    def f(v, Rb):
+        R = Rotation.from_rotvec(v[:3]).as_matrix() @ Rb
+        d = (P - pc) @ R.T + v[3:] - X
+        return float(np.sqrt((d ** 2).sum(axis=1)).max())
+    for Rb in cands:
+        t = (X - (P - pc) @ Rb.T).mean(axis=0)
+        v0 = np.concatenate([np.zeros(3), t])
+        try:
+            r = minimize(f, v0, args=(Rb,), method="Nelder-Mead", options={"xatol": 1e-7, "fatol": 1e-9, "maxiter": 1500, "initial_simplex": None})
+            best = min(best, float(r.fun), f(v0, Rb))
+        except Exception:
+            best = min(best, f(v0, Rb))
+    return best
